@@ -153,6 +153,19 @@ def main(argv):
     with vsim.Scratch("c09") as scratch:
         if replay:
             rp = json.load(open(replay))
+            if rp.get("route") == "loop":
+                w = scratch.new()
+                os.makedirs(w, exist_ok=True)
+                with open(os.path.join(w, "script"), "wb") as f:
+                    f.write(rp["script"].encode("latin-1"))
+                r = worlds.compile_world(binfo, w, {}, ["-Gloop"], [], plan_extra=list(rp["plan"]) + ["stdin ../script"], cpu=600)
+                marks = [l.decode("latin-1") for l in r.out.split(b"\n") if l.startswith(b"@")]
+                bad = r.sig is not None or any(x in r.out + r.err for x in STORAGE_FAULT) or marks != rp["expected_marks"]
+                vsim.say("replay: loop route, marks %s" % ("differ / fault" if bad else "as expected"))
+                if bad:
+                    vsim.say("VIOLATION property=%s replay=%s" % (PID, replay))
+                    return 1
+                return 0
             prog = {"name": rp["name"], "text": rp["source"].encode("latin-1"), "q": rp.get("q")}
             if rp["route"] == "exe":
                 d, msg = build_exe(binfo, scratch, prog["name"], prog["text"], rp["q"], rp["o"])
@@ -379,6 +392,64 @@ def main(argv):
                 "key": key, "source_key": binfo["key"], "other_failing_cases": len(ids) - 1})
             out.violations.append({"key": key, "cls": want, "detail": "%s on route %s under %s (%d cases)" % (c["name"], route, mplan, len(ids)), "replay": rp})
 
+        # ---- third route: the interactive loop with its own collection command -------------------
+        # `#int gc' is the only caller of the interpreter's stack cleaning (fintFreeJunk); the same
+        # generated programs run as sessions - one step per block, `#int gc' between the steps - under
+        # seeded forced schedules, compared with the session without the command and nothing forced
+        def loop_world(script, plan, cpu=120):
+            w = scratch.new()
+            os.makedirs(w, exist_ok=True)
+            with open(os.path.join(w, "script"), "wb") as f:
+                f.write(script.encode("latin-1"))
+            r = worlds.compile_world(binfo, w, {}, ["-Gloop"], [], plan_extra=list(plan) + ["stdin ../script"], cpu=cpu)
+            vsim.cleanup_world(w)
+            return r
+
+        def loop_marks(r):
+            return [l for l in r.out.split(b"\n") if l.startswith(b"@")]
+        loop_cases, loop_refs = [], {}
+        for g in range(4 if tier == "quick" else 24):
+            rg = vsim.Rng(seed, "c09-loop", g)
+            blocks = progen.gen_blocks(rg.fork("b"), "small" if g % 2 else "heavy", ("deeprec",) if g % 2 == 0 else ("chain",) if g % 4 == 1 else ())
+            blocks = [b for b in blocks if b[0] not in ("docs", "rawrec")]	# (a `+++' line is not a step of its own)
+            ref = loop_world(progen.render_loop(blocks, gc=False), ["heapbase 200000000000", "gclevel 1"])
+            if ref.rc != 0 or ref.timeout or worlds.fault_class(ref) or not loop_marks(ref):
+                continue
+            loop_refs[g] = ref
+            nal = vsim.parse_log(ref.log)["z"].get("allocs", 0)
+            for k in range(3 if tier == "quick" else 8):
+                lines, meta = gen_schedule(rg, "interp", nal, start["interp"], tier)
+                loop_cases.append((g, progen.render_loop(blocks, gc=True), base_plan(rg, "interp") + lines))
+        loop_res = vsim.pmap(lambda c: loop_world(c[1], c[2], cpu=max(120, int((loop_refs[c[0]].cpu or 5) * 40) + 60)), loop_cases)
+        loop_by = {}
+        for (g, script, plan), r in zip(loop_cases, loop_res):
+            v = None
+            if r.timeout:
+                v = None		# (over the budget with hundreds of forced collections: inconclusive, not a verdict)
+            elif r.sig is not None or any(x in r.out + r.err for x in STORAGE_FAULT):
+                v = "storage-fault"
+            elif r.rc != loop_refs[g].rc:
+                v = "exit-differs"
+            elif loop_marks(r) != loop_marks(loop_refs[g]):
+                v = "output-differs"
+            if v:
+                loop_by.setdefault("loop:" + v, []).append((g, script, plan, r))
+        for key in sorted(loop_by):
+            text = out.classify(key)
+            if text is not None:
+                out.known.append({"key": key, "text": text})
+                continue
+            g, script, plan, r = loop_by[key][0]
+            r2 = loop_world(script, plan, cpu=max(120, int((loop_refs[g].cpu or 5) * 40) + 60))
+            if r2.out != r.out or r2.rc != r.rc:
+                out.nondet.append("loop session g%d: violation %s did not reproduce" % (g, key))
+                continue
+            rp = vsim.write_replay(PID, "seed%d-loop%d" % (seed, g), {
+                "property": PID, "seed": seed, "route": "loop", "script": script, "plan": plan, "key": key,
+                "expected_marks": [x.decode("latin-1") for x in loop_marks(loop_refs[g])],
+                "got_tail": (r.out + r.err)[-400:].decode("latin-1", "replace"), "source_key": binfo["key"]})
+            out.violations.append({"key": key, "cls": key.split(":")[1], "detail": "loop session g%d under %s (%d cases)" % (g, plan, len(loop_by[key])), "replay": rp})
+
         for c in progs:
             vsim.cleanup_world(c["exe_dir"])
         wall = time.time() - t0
@@ -391,6 +462,7 @@ def main(argv):
             "program_routes_removed_unstable_reference": unstable,
             "program_routes": len(work), "worlds_planned": len(cases), "worlds_run": done,
             "schedule_kinds": kinds, "micro_programs_every_allocation_blocks": micro_blocks,
+            "loop_route": {"sessions": len(loop_refs), "worlds": len(loop_cases), "violating": sum(len(v) for v in loop_by.values())},
             "forced_collections_executed": forced, "forced_collections_that_freed_storage": freed,
             "audits_executed": audits, "allocator_audit_failures_observed_not_gated": audit_fail[:5],
             "startup_allocations": start,
